@@ -21,7 +21,7 @@ Definition enc_frame (f : hframe) : val :=
   | HOther => VC "AMQPFrame::Other" []
   end.
 
-Definition frame_unexpected : val := VC "Err" [VC "FrameUnexpected" []].
+Definition frame_unexpected : val := VC "Err" [VC "Error::FrameUnexpected" []].
 
 Definition enc_tok (tok : N * N * N) : val :=
   let '(cm, fm, hb) := tok in VR [("channel_max", VN cm); ("frame_max", VN fm); ("heartbeat", VN hb)].
@@ -50,8 +50,8 @@ Definition ext_model (o : hopts) (eo : val) (name : string) (args : list val) : 
   else if (name =? "make_start_ok")%string then
     match args with
     | [_; VC _ [VBytes mechs; VBytes locs; sprops]] =>
-        if negb (server_supports mechs (o_mech o)) then VC "Err" [VC "UnsupportedAuthMechanism" []]
-        else if negb (server_supports locs (o_locale o)) then VC "Err" [VC "UnsupportedLocale" []]
+        if negb (server_supports mechs (o_mech o)) then VC "Err" [VC "Error::UnsupportedAuthMechanism" []]
+        else if negb (server_supports locs (o_locale o)) then VC "Err" [VC "Error::UnsupportedLocale" []]
         else VC "Ok" [VC "tuple" [enc_start_ok o; sprops]]
     | _ => VStuck
     end
@@ -59,7 +59,7 @@ Definition ext_model (o : hopts) (eo : val) (name : string) (args : list val) : 
     match args with
     | [_; VC _ [VN cm; VN fm; VN hb]] =>
         match make_tune_ok (o_cm o) (o_fm o) (o_hb o) cm fm hb with
-        | FrameMaxTooSmall _ _ => VC "Err" [VC "FrameMaxTooSmall" []]
+        | FrameMaxTooSmall _ _ => VC "Err" [VC "Error::FrameMaxTooSmall" []]
         | TuneOk rcm rfm rhb => VC "Ok" [enc_tok (rcm, rfm, rhb)]
         end
     | _ => VStuck
@@ -97,11 +97,11 @@ Section Tie.
 
   Definition enc_err (e : herr) : val :=
     match e with
-    | HeUnsupportedMech => VC "UnsupportedAuthMechanism" []
-    | HeUnsupportedLocale => VC "UnsupportedLocale" []
-    | HeSaslSecure => VC "SaslSecureNotSupported" []
-    | HeFrameMaxTooSmall => VC "FrameMaxTooSmall" []
-    | _ => VC "FrameUnexpected" []
+    | HeUnsupportedMech => VC "Error::UnsupportedAuthMechanism" []
+    | HeUnsupportedLocale => VC "Error::UnsupportedLocale" []
+    | HeSaslSecure => VC "Error::SaslSecureNotSupported" []
+    | HeFrameMaxTooSmall => VC "Error::FrameMaxTooSmall" []
+    | _ => VC "Error::FrameUnexpected" []
     end.
 
   Definition enc_result (r : hres) : val :=
